@@ -279,12 +279,20 @@ class InputTopology:
     def topo_class(self):
         return f"g{self.genus}:b{self.loops}"
 
+    def topo_coarse(self):
+        if self.loops == 0:
+            return "sphere" if self.genus == 0 else "closed:g>0"
+        if self.genus > 0:
+            return "bordered:g>0"
+        return "disk" if self.loops == 1 else "bordered:b>1"
+
     def sing_class(self, S):
-        if len(S) == self.n and len(S) > 3:
-            return "Sall"
         if len(S) == 2:
             return "S2:adj" if tuple(sorted(S)) in self.adjacent else "S2:apart"
-        return f"S{len(S)}"
+        return f"S{len(S)}" if len(S) <= 3 else "S>3"
+
+    def expect_uncut(self, S):
+        return self.loops == 0 and self.genus == 0 and len(S) < 2
 
     def nontrivial(self, S):
         if self.loops == 0:
@@ -318,35 +326,39 @@ def _border_analysis(faces, nv):
     return manifold, comps, loops, chi, bverts
 
 
-def _judge(rep: Report, T: InputTopology, pts, S, edges_pairs, obs, icls, base_detail):
-    """Clause-by-clause comparison of one cutter run with the statement. obs = dict of observed outputs."""
-    def bad(sub, callee, kind, extra=None):
-        d = dict(base_detail)
-        d["observed"] = {"cut_edges": sorted(obs["cut_pairs"]) if obs.get("cut_pairs") is not None else None,
-                         "out_faces": obs.get("out_faces"), "ref_vertex": obs.get("ref_items")}
-        if extra:
-            d.update(extra)
-        rep.violation("C16." + sub, "SingularityCutter." + callee, kind, icls, d)
+def _P(p):
+    return tuple(float(x) for x in (list(p) + [0.0] * (3 - len(p))))
+
+
+def _judge(T: InputTopology, pts, S, obs):
+    """Clause-by-clause comparison of one cutter run with the statement.
+    Returns (result label, number of clause evaluations, list of failures in clause order); a failure is a dict
+    group / sub / callee / kind / extra. Groups: faces (fatal), cut (which edges were cut: disk, singular vertices,
+    border, connectivity), rebuild (opened <=> reported), ref (ref_vertex), views (cut_adj / cut_graph)."""
+    fails = []
+
+    def bad(group, sub, callee, kind, extra=None):
+        fails.append({"group": group, "sub": sub, "callee": callee, "kind": kind, "extra": extra or {}})
 
     n, faces = T.n, T.faces
     of, opts = obs["out_faces"], obs["out_pts"]
     nvo = len(opts)
+    evals = 1
     # ---- clause 1: exactly the input faces, same order, same corner positions
-    rep.evaluations += 1
     if len(of) != len(faces) or any(len(f) != 3 for f in of):
-        bad("faces.count", "output_mesh", "mismatch:number_of_faces", {"got": len(of), "want": len(faces)})
-        return "bad"
+        bad("faces", "faces.count", "output_mesh", "mismatch:number_of_faces", {"got": len(of), "want": len(faces)})
+        return "bad", evals, fails
     if any((not 0 <= u < nvo) for f in of for u in f):
-        bad("faces.indices", "output_mesh", "mismatch:corner_out_of_range")
-        return "bad"
+        bad("faces", "faces.indices", "output_mesh", "mismatch:corner_out_of_range")
+        return "bad", evals, fails
     rot = []
     for i, f in enumerate(faces):
-        want = [tuple(float(x) for x in (list(pts[v]) + [0.0] * (3 - len(pts[v])))) for v in f]
+        want = [_P(pts[v]) for v in f]
         got = [opts[u] for u in of[i]]
         r = next((r for r in range(3) if all(got[(k + r) % 3] == want[k] for k in range(3))), None)
         if r is None:
-            bad("faces.positions", "output_mesh", "mismatch:corner_positions", {"face": i, "got": got, "want": want})
-            return "bad"
+            bad("faces", "faces.positions", "output_mesh", "mismatch:corner_positions", {"face": i, "got": got, "want": want})
+            return "bad", evals, fails
         rot.append(r)
     oc = lambda i, k: of[i][(k + rot[i]) % 3]          # output vertex sitting at corner k of input face i
     copies = [set() for _ in range(n)]
@@ -356,53 +368,48 @@ def _judge(rep: Report, T: InputTopology, pts, S, edges_pairs, obs, icls, base_d
 
     manifold, comps, loops, chi, bverts = _border_analysis(of, nvo)
     cut_pairs = obs["cut_pairs"]
-    expect_uncut = T.loops == 0 and T.genus == 0 and len(S) < 2
-    result = "disk"
+    expect_uncut = T.expect_uncut(S)
     # ---- clause 2: disk (or untouched sphere)
-    rep.evaluations += 1
+    evals += 1
     if expect_uncut:
-        result = "uncut"
         if not (manifold and comps == 1 and loops == 0 and chi == 2 and nvo == n):
-            bad("sphere_uncut.mesh", "output_mesh", "mismatch:sphere_was_modified",
+            bad("cut", "sphere_uncut.mesh", "output_mesh", "mismatch:sphere_was_modified",
                 {"manifold": manifold, "components": comps, "border_loops": loops, "chi": chi, "n_vertices": nvo})
-            result = "bad"
         if cut_pairs is not None and len(cut_pairs) != 0:
-            bad("sphere_uncut.cut_edges", "cut_edges", "mismatch:cut_edges_not_empty")
-            result = "bad"
+            bad("cut", "sphere_uncut.cut_edges", "cut_edges", "mismatch:cut_edges_not_empty")
     else:
         if not manifold:
-            bad("disk.manifold", "output_mesh", "mismatch:not_a_manifold"); result = "bad"
+            bad("cut", "disk.manifold", "output_mesh", "mismatch:not_a_manifold")
         elif comps != 1:
-            bad("disk.components", "output_mesh", "mismatch:components", {"components": comps}); result = "bad"
+            bad("cut", "disk.components", "output_mesh", "mismatch:components", {"components": comps})
         elif loops != 1:
-            bad("disk.border_loops", "output_mesh", "mismatch:border_loops", {"border_loops": loops, "chi": chi}); result = "bad"
+            bad("cut", "disk.border_loops", "output_mesh", "mismatch:border_loops", {"border_loops": loops, "chi": chi})
         elif chi != 1:
-            bad("disk.euler", "output_mesh", "mismatch:euler_characteristic", {"chi": chi}); result = "bad"
+            bad("cut", "disk.euler", "output_mesh", "mismatch:euler_characteristic", {"chi": chi})
         # ---- clause 3: every singular vertex has a copy on the border of the cut mesh
-        rep.evaluations += 1
+        evals += 1
         missing = [s for s in S if not (copies[s] & bverts)]
         if missing:
-            bad("singular_on_border", "output_mesh", "mismatch:singular_vertex_not_on_border", {"singular_without_border_copy": missing})
-            result = "bad"
+            bad("cut", "singular_on_border", "output_mesh", "mismatch:singular_vertex_not_on_border", {"singular_without_border_copy": missing})
     # ---- clause 4: ref_vertex is a map cut vertex -> original vertex, onto, consistent face by face
-    rep.evaluations += 1
+    evals += 1
     ref = obs["ref"]
     if ref is None:
-        bad("ref_vertex.total", "ref_vertex", "mismatch:ref_vertex_missing"); result = "bad"
+        bad("ref", "ref_vertex.total", "ref_vertex", "mismatch:ref_vertex_missing")
     else:
         if sorted(ref.keys()) != list(range(nvo)):
-            bad("ref_vertex.total", "ref_vertex", "mismatch:domain_is_not_the_cut_vertices",
-                {"keys": sorted(ref.keys()), "n_cut_vertices": nvo}); result = "bad"
+            bad("ref", "ref_vertex.total", "ref_vertex", "mismatch:domain_is_not_the_cut_vertices",
+                {"keys": sorted(ref.keys()), "n_cut_vertices": nvo})
         if set(ref.values()) != set(range(n)):
-            bad("ref_vertex.onto", "ref_vertex", "mismatch:not_onto", {"missing": sorted(set(range(n)) - set(ref.values())),
-                                                                      "extra": sorted(set(ref.values()) - set(range(n)))}); result = "bad"
+            bad("ref", "ref_vertex.onto", "ref_vertex", "mismatch:not_onto",
+                {"missing": sorted(set(range(n)) - set(ref.values())), "extra": sorted(set(ref.values()) - set(range(n)))})
         wrong = [(i, k) for i, f in enumerate(faces) for k in range(3) if ref.get(oc(i, k)) != f[k]]
         if wrong:
-            bad("ref_vertex.consistent", "ref_vertex", "mismatch:face_corner_maps_to_other_vertex", {"first_wrong_corner": wrong[0]}); result = "bad"
+            bad("ref", "ref_vertex.consistent", "ref_vertex", "mismatch:face_corner_maps_to_other_vertex", {"first_wrong_corner": wrong[0]})
     # ---- clause 5: only the edges reported as cut were opened
-    rep.evaluations += 1
+    evals += 1
     if cut_pairs is None:
-        bad("cut_edges.valid", "cut_edges", "mismatch:cut_edges_missing_or_invalid_ids", {"raw": obs.get("cut_raw")}); result = "bad"
+        bad("cut", "cut_edges.valid", "cut_edges", "mismatch:cut_edges_missing_or_invalid_ids", {"raw": obs.get("cut_raw")})
     else:
         opened_unreported, reported_closed = [], []
         for (a, b) in T.interior:
@@ -414,25 +421,25 @@ def _judge(rep: Report, T: InputTopology, pts, S, edges_pairs, obs, icls, base_d
             if not glued and (a, b) not in cut_pairs:
                 opened_unreported.append((a, b))
         if opened_unreported:
-            bad("opened_iff_cut", "cut_edges", "mismatch:opened_edge_not_reported", {"edges": opened_unreported[:6]}); result = "bad"
+            bad("rebuild", "opened_iff_cut", "cut_edges", "mismatch:opened_edge_not_reported", {"edges": opened_unreported[:6]})
         if reported_closed:
-            bad("opened_iff_cut", "cut_edges", "mismatch:reported_edge_not_opened", {"edges": reported_closed[:6]}); result = "bad"
+            bad("rebuild", "opened_iff_cut", "cut_edges", "mismatch:reported_edge_not_opened", {"edges": reported_closed[:6]})
         alien = sorted(e for e in cut_pairs if e not in T.adjacent)
         if alien:
-            bad("cut_edges.valid", "cut_edges", "mismatch:not_an_edge_of_the_mesh", {"edges": alien}); result = "bad"
+            bad("cut", "cut_edges.valid", "cut_edges", "mismatch:not_an_edge_of_the_mesh", {"edges": alien})
         # ---- clause 6: the cut edges contain the original border and form a connected graph
-        rep.evaluations += 1
+        evals += 1
         lost = [e for e in T.border if e not in cut_pairs]
         if lost:
-            bad("cut_edges.contains_border", "cut_edges", "mismatch:border_edge_missing", {"edges": lost[:6]}); result = "bad"
+            bad("cut", "cut_edges.contains_border", "cut_edges", "mismatch:border_edge_missing", {"edges": lost[:6]})
         if cut_pairs:
             vs = sorted(set(v for e in cut_pairs for v in e))
             ncomp = len(F.components(vs, sorted(cut_pairs)))
             if ncomp != 1:
-                bad("cut_edges.connected", "cut_edges", "mismatch:cut_graph_components", {"components": ncomp}); result = "bad"
+                bad("cut", "cut_edges.connected", "cut_edges", "mismatch:cut_graph_components", {"components": ncomp})
         # ---- the other two reports of the same edge set agree with cut_edges
         if not expect_uncut:
-            rep.evaluations += 1
+            evals += 1
             adj = obs.get("cut_adj")
             if adj is not None:
                 got = set()
@@ -440,22 +447,22 @@ def _judge(rep: Report, T: InputTopology, pts, S, edges_pairs, obs, icls, base_d
                     for b in nb:
                         got.add((min(a, b), max(a, b)))
                 if got != set(cut_pairs):
-                    bad("reported.cut_adj", "cut_adj", "mismatch:cut_adj_differs_from_cut_edges",
-                        {"only_adj": sorted(got - set(cut_pairs))[:6], "only_edges": sorted(set(cut_pairs) - got)[:6]}); result = "bad"
+                    bad("views", "reported.cut_adj", "cut_adj", "mismatch:cut_adj_differs_from_cut_edges",
+                        {"only_adj": sorted(got - set(cut_pairs))[:6], "only_edges": sorted(set(cut_pairs) - got)[:6]})
             cg = obs.get("cut_graph")
             if cg is not None:
                 if cg[0] == "raised":
-                    bad("reported.cut_graph", "cut_graph", "raises:" + cg[1], {"msg": cg[2]}); result = "bad"
+                    bad("views", "reported.cut_graph", "cut_graph", "raises:" + cg[1], {"msg": cg[2]})
                 else:
-                    P = lambda v: tuple(float(x) for x in (list(pts[v]) + [0.0] * (3 - len(pts[v]))))
-                    want = sorted(tuple(sorted((P(a), P(b)))) for a, b in cut_pairs)
+                    want = sorted(tuple(sorted((_P(pts[a]), _P(pts[b])))) for a, b in cut_pairs)
                     if sorted(cg[1]) != want:
-                        bad("reported.cut_graph", "cut_graph", "mismatch:segments_differ_from_cut_edges"); result = "bad"
-    return result
+                        bad("views", "reported.cut_graph", "cut_graph", "mismatch:segments_differ_from_cut_edges")
+    result = "bad" if any(f["group"] in ("cut", "rebuild", "faces") for f in fails) else ("uncut" if expect_uncut else "disk")
+    return result, evals, fails
 
 
 # ------------------------------------------------------------------------------------------ running the real code
-def _observe(M, m, cutter, T, want_views):
+def _observe(m, cutter, want_views):
     """Read every output of a finished cutter into plain python values."""
     obs = {}
     o = call(lambda: cutter.output_mesh)
@@ -466,7 +473,6 @@ def _observe(M, m, cutter, T, want_views):
     obs["out_pts"] = [tuple(float(x) for x in out.vertices[i]) for i in range(len(out.vertices))]
     ref = cutter.ref_vertex
     obs["ref"] = None if ref is None else {int(k): int(v) for k, v in ref.items()}
-    obs["ref_items"] = None if ref is None else sorted(obs["ref"].items())
     raw = cutter.cut_edges
     obs["cut_raw"] = None if raw is None else sorted(int(e) for e in raw)
     ne = len(m.edges)
@@ -489,24 +495,6 @@ def _observe(M, m, cutter, T, want_views):
     return obs, None
 
 
-def _make_detector(M, m, feat):
-    if feat == "none":
-        return None
-    fd = M.processing.FeatureEdgeDetector(only_border=(feat == "border"), verbose=False)
-    fd.run(m)
-    return fd
-
-
-def _feat_class(m, fd, T):
-    if fd is None:
-        return "feat=none"
-    border = set(T.border)
-    for e in fd.feature_edges:
-        if tuple(sorted(int(x) for x in m.edges[int(e)])) not in border:
-            return "feat=crease"
-    return "feat=border"
-
-
 def _subsets(n, smax):
     out = []
     for r in range(min(smax, n) + 1):
@@ -516,111 +504,200 @@ def _subsets(n, smax):
     return out
 
 
-def _one_run(M, rep, name, pts, faces, T, geom, feat, S, rerun_first=None):
-    """Build a fresh mesh, (optionally run a first cutter on it), run the cutter for S and judge it."""
-    m = F.build_surface(pts, faces)
-    edges_pairs = set(tuple(sorted(int(x) for x in e)) for e in m.edges)
-    if edges_pairs != T.adjacent or len(m.edges) != len(T.adjacent):
-        rep.count("premise_failed")
-        return
-    o = call(_make_detector, M, m, feat)
-    if not o.ok:
-        rep.count("detector_raised:" + o.exc)      # FeatureEdgeDetector is C15's subject
-        return
-    fd = o.value
-    fcls = _feat_class(m, fd, T)
-    icls = f"{T.topo_class()}|{T.sing_class(S)}|{geom}|{fcls}" + ("|rerun" if rerun_first is not None else "")
-    detail = {"mesh": name, "points": [list(p) for p in pts], "faces": [list(f) for f in T.faces], "singularities": list(S),
-              "detector": {"none": None, "border": "FeatureEdgeDetector(only_border=True)", "detect": "FeatureEdgeDetector()"}[feat],
-              "feature_edges": None if fd is None else sorted(tuple(sorted(int(x) for x in m.edges[int(e)])) for e in fd.feature_edges)}
-    if rerun_first is not None:
-        detail["first_cutter_on_same_mesh"] = list(rerun_first)
-        c0 = M.processing.SingularityCutter(m, list(rerun_first), features=fd, verbose=False)
-        o = call(c0.run)
-        if o.ok:
-            call(lambda: c0.output_mesh)
-        rep.transitions += 1
-    rep.traces += 1
-    rep.states += 1
-    rep.transitions += 2
-    o = call(lambda: M.processing.SingularityCutter(m, list(S), features=fd, verbose=False))
-    if not o.ok:
-        rep.violation("C16.run", "SingularityCutter.__init__", exc_kind(o), icls, dict(detail, msg=o.msg))
-        rep.outcome("result", "raised"); return
-    cutter = o.value
-    o = call(cutter.run)
-    if not o.ok:
-        rep.violation("C16.run", "SingularityCutter.run", exc_kind(o), icls, dict(detail, msg=o.msg))
-        rep.outcome("result", "raised"); return
-    expect_uncut = T.loops == 0 and T.genus == 0 and len(S) < 2
-    obs, err = _observe(M, m, cutter, T, want_views=not expect_uncut)
-    if err is not None:
-        rep.violation("C16.run", "SingularityCutter." + err[0], exc_kind(err[1]), icls, dict(detail, msg=err[1].msg))
-        rep.outcome("result", "raised"); return
-    res = _judge(rep, T, pts, S, edges_pairs, obs, icls, detail)
-    # ---- bookkeeping
-    rep.outcome("result", res)
-    rep.outcome("topology", T.topo_class())
-    if obs["cut_pairs"] is not None:
-        rep.outcome("interior_cut_edges", min(len(obs["cut_pairs"]) - len(T.border), 12))
-    rep.flag("topo:" + T.topo_class() if T.genus <= 1 and T.loops <= 3 else "topo:other")
-    rep.flag("sing:" + T.sing_class(S))
-    rep.flag(fcls); rep.flag("geom:" + geom)
-    if bool(getattr(cutter, "_has_features", False)):
-        rep.flag("cutter_took_feature_path")
-    if res == "uncut":
-        rep.flag("sphere_left_uncut")
-    if T.loops == 0 and T.genus == 0 and len(S) >= 2:
-        rep.flag("sphere_cut")
-    if any(s in T.border_vertices for s in S) and any(s not in T.border_vertices for s in S):
-        rep.flag("singularities_on_and_off_border")
-    if T.nontrivial(S):
-        rep.case((name, geom, feat, tuple(S), rerun_first is not None))
-    if len(S) == 2 and T.nontrivial(S):
-        rep.sample({"mesh": name, "geom": geom, "detector": feat, "singularities": list(S), "class": icls, "result": res,
-                    "cut_edges": sorted(obs["cut_pairs"]) if obs["cut_pairs"] is not None else None})
+class Session:
+    """Runs of one task: resolved inputs, and the minimal failing configurations already derived (for classes)."""
+
+    def __init__(self, M, rep):
+        self.M, self.rep = M, rep
+        self.inputs = {}
+        self.minimal = {}
+
+    def input(self, spec, geom):
+        key = (repr(spec), geom)
+        if key not in self.inputs:
+            name, pts, faces = _resolve(spec, geom)
+            faces = [tuple(f) for f in faces]
+            ok = _connected_manifold(pts, faces)
+            self.inputs[key] = (name, pts, faces, InputTopology(len(pts), faces) if ok else None)
+        return self.inputs[key]
+
+    # -------------------------------------------------------------------------------- one execution
+    def execute(self, spec, geom, feat, S, first=None):
+        """Fresh mesh -> (detector) -> (a first cutter, in rerun mode) -> cutter for S -> judge. Pure: nothing is recorded."""
+        M = self.M
+        name, pts, faces, T = self.input(spec, geom)
+        res = {"name": name, "pts": pts, "T": T, "fails": [], "evals": 0, "result": "skipped", "fcls": None, "obs": None,
+               "feature_edges": None, "feature_path": False}
+        m = F.build_surface(pts, faces)
+        if set(tuple(sorted(int(x) for x in e)) for e in m.edges) != T.adjacent or len(m.edges) != len(T.adjacent):
+            res["skip"] = "premise_failed"
+            return res
+        fd = None
+        if feat != "none":
+            o = call(lambda: M.processing.FeatureEdgeDetector(only_border=(feat == "border"), verbose=False))
+            if o.ok:
+                fd = o.value
+                o = call(fd.run, m)
+            if not o.ok:
+                res["skip"] = "detector_raised:" + o.exc          # the detector is C15's subject
+                return res
+            border = set(T.border)
+            fe = sorted(tuple(sorted(int(x) for x in m.edges[int(e)])) for e in fd.feature_edges)
+            res["feature_edges"] = fe
+            res["fcls"] = "feat=crease" if any(e not in border for e in fe) else "feat=border"
+        else:
+            res["fcls"] = "feat=none"
+        if first is not None:
+            c0 = M.processing.SingularityCutter(m, list(first), features=fd, verbose=False)
+            if call(c0.run).ok:
+                call(lambda: c0.output_mesh)
+
+        def raised(callee, o):
+            res["result"] = "raised"
+            res["fails"] = [{"group": "run", "sub": "run", "callee": callee, "kind": exc_kind(o), "extra": {"msg": o.msg}}]
+            return res
+        o = call(lambda: M.processing.SingularityCutter(m, list(S), features=fd, verbose=False))
+        if not o.ok:
+            return raised("__init__", o)
+        cutter = o.value
+        o = call(cutter.run)
+        if not o.ok:
+            return raised("run", o)
+        obs, err = _observe(m, cutter, want_views=not T.expect_uncut(S))
+        if err is not None:
+            return raised(err[0], err[1])
+        res["obs"] = obs
+        res["feature_path"] = bool(getattr(cutter, "_has_features", False))
+        res["result"], res["evals"], res["fails"] = _judge(T, pts, S, obs)
+        return res
+
+    # -------------------------------------------------------------------------------- input class of a failure
+    def classify(self, spec, geom, feat, S, fail, res, first):
+        """Coarse class of a failing input = class of a *minimal failing configuration* derived from it by re-running the
+        real code: singular vertices are dropped one at a time while the same clause keeps failing; the geometry alphabet
+        and the feature mode are switched to see whether the failure depends on them. Returns (class, derivation)."""
+        key = (repr(spec), geom, feat, first is not None, fail["sub"], fail["kind"])
+        known = self.minimal.setdefault(key, [])
+        for smin, cls, why in known:
+            if smin <= set(S):
+                return cls, why
+        same = lambda r: any(f["sub"] == fail["sub"] and f["kind"] == fail["kind"] for f in r["fails"])
+        T = res["T"]
+        cur = list(S)
+        for s in list(S):
+            trial = [x for x in cur if x != s]
+            if same(self.execute(spec, geom, feat, trial, first)):
+                cur = trial
+        other = "generic" if geom == "ties" else "ties"
+        gcls = "geom=any" if same(self.execute(spec, other, feat, cur, first)) else f"geom={geom}-only"
+        if res["fcls"] == "feat=crease":
+            fcls = "feat=any" if same(self.execute(spec, geom, "none", cur, first)) else "feat=crease-only"
+        else:
+            r = self.execute(spec, geom, "detect", cur, first)
+            fcls = "feat=plain-only" if (r["fcls"] == "feat=crease" and not same(r)) else "feat=any"
+        cls = f"{T.topo_coarse()}|{T.sing_class(cur)}|{gcls}|{fcls}"
+        if first is not None:
+            # a failure that a fresh mesh shows as well is not about the second run: the main tasks report it
+            cls = None if same(self.execute(spec, geom, feat, cur, None)) else cls + "|second-run-only"
+        why = {"minimal_failing_singularities": cur, "geometry": gcls, "features": fcls}
+        known.append((frozenset(cur), cls, why))
+        return cls, why
+
+    # -------------------------------------------------------------------------------- one recorded case
+    def case(self, spec, geom, feat, S, first=None):
+        rep = self.rep
+        res = self.execute(spec, geom, feat, S, first)
+        if "skip" in res:
+            rep.count(res["skip"])
+            return
+        T = res["T"]
+        rep.traces += 1; rep.states += 1; rep.transitions += 2 + (1 if first is not None else 0)
+        rep.evaluations += res["evals"]
+        seen_groups = set()
+        for fail in res["fails"]:
+            if fail["group"] in seen_groups:          # later clauses of a group are consequences of the first one
+                continue
+            seen_groups.add(fail["group"])
+            cls, why = self.classify(spec, geom, feat, S, fail, res, first)
+            if cls is None:
+                rep.count("second_run_failure_also_on_fresh_mesh")
+                continue
+            obs = res["obs"] or {}
+            detail = {"mesh": res["name"], "points": [list(p) for p in res["pts"]], "faces": [list(f) for f in T.faces],
+                      "singularities": list(S), "geometry": geom,
+                      "detector": {"none": None, "border": "FeatureEdgeDetector(only_border=True)", "detect": "FeatureEdgeDetector()"}[feat],
+                      "feature_edges": res["feature_edges"], "topology": T.topo_class(), "class_derivation": why,
+                      "observed": {"cut_edges": sorted(obs["cut_pairs"]) if obs.get("cut_pairs") is not None else obs.get("cut_raw"),
+                                   "out_faces": obs.get("out_faces"),
+                                   "ref_vertex": sorted(obs["ref"].items()) if obs.get("ref") else None}}
+            if first is not None:
+                detail["first_cutter_on_same_mesh"] = list(first)
+            detail.update(fail["extra"])
+            rep.violation("C16." + fail["sub"], "SingularityCutter." + fail["callee"], fail["kind"], cls, detail)
+        # ---- bookkeeping
+        obs = res["obs"]
+        rep.outcome("result", res["result"])
+        rep.outcome("topology", T.topo_class())
+        if obs is not None and obs["cut_pairs"] is not None:
+            rep.outcome("interior_cut_edges", min(len(obs["cut_pairs"]) - len(T.border), 12))
+        rep.flag(("topo:" + T.topo_class()) if (T.genus <= 1 and T.loops <= 3) else "topo:other")
+        rep.flag("sing:" + ("Sall" if len(S) == T.n and T.n > 3 else T.sing_class(S)))
+        rep.flag(res["fcls"]); rep.flag("geom:" + geom)
+        if res["feature_path"]:
+            rep.flag("cutter_took_feature_path")
+        if res["result"] == "uncut":
+            rep.flag("sphere_left_uncut")
+        if T.loops == 0 and T.genus == 0 and len(S) >= 2:
+            rep.flag("sphere_cut")
+        if any(s in T.border_vertices for s in S) and any(s not in T.border_vertices for s in S):
+            rep.flag("singularities_on_and_off_border")
+        if T.nontrivial(S):
+            rep.case((res["name"], geom, feat, tuple(S), first is not None))
+            if len(S) == 2:
+                rep.sample({"mesh": res["name"], "geometry": geom, "detector": feat, "singularities": list(S), "topology": T.topo_class(),
+                            "result": res["result"], "cut_edges": sorted(obs["cut_pairs"]) if obs and obs["cut_pairs"] is not None else None})
 
 
 def run_task(task, rep: Report):
     import mouette as M
     geom, feat, smax = task["geom"], task["feat"], task["smax"]
     part, parts = task["part"]
+    ses = Session(M, rep)
     for spec in task["meshes"]:
-        name, pts, faces = _resolve(spec, geom)
-        faces = [tuple(f) for f in faces]
-        n = len(pts)
-        if not _connected_manifold(pts, faces):
+        name, pts, faces, T = ses.input(spec, geom)
+        if T is None:
             rep.count("filtered_not_connected_manifold")
             continue
-        T = InputTopology(n, faces)
         rep.count("meshes")
         rep.count("family:" + spec[0] + (str(spec[1]) if spec[0] == "surf" else ""))
-        sets = _subsets(n, smax)
+        sets = _subsets(T.n, smax)
         if task.get("rerun"):
-            first = list(range(n))
             for S in sets:
                 if len(S) <= 1:
-                    _one_run(M, rep, name, pts, faces, T, geom, feat, S, rerun_first=first)
+                    ses.case(spec, geom, feat, S, first=list(range(T.n)))
             continue
         for idx, S in enumerate(sets):
-            if idx % parts != part:
-                continue
-            _one_run(M, rep, name, pts, faces, T, geom, feat, S)
+            if idx % parts == part:
+                ses.case(spec, geom, feat, S)
 
 
 def finish(tier, rep: Report):
     fails = []
-    need = ["topo:g0:b0", "topo:g0:b1", "topo:g0:b2", "topo:g1:b0", "topo:g1:b1", "sing:S0", "sing:S1", "sing:S2:adj", "sing:S2:apart",
-            "sing:Sall", "feat=none", "feat=border", "feat=crease", "geom:ties", "geom:generic", "cutter_took_feature_path",
-            "sphere_left_uncut", "sphere_cut", "singularities_on_and_off_border"]
+    need = ["topo:g0:b0", "topo:g0:b1", "topo:g0:b2", "topo:g0:b3", "topo:g1:b0", "topo:g1:b1", "sing:S0", "sing:S1", "sing:S2:adj",
+            "sing:S2:apart", "sing:Sall", "feat=none", "feat=border", "feat=crease", "geom:ties", "geom:generic",
+            "cutter_took_feature_path", "sphere_left_uncut", "sphere_cut", "singularities_on_and_off_border"]
     if tier == "thorough":
         need.append("sing:S3")
     for f in need:
         if f not in rep.flags:
             fails.append("coverage flag missing: " + f)
-    for kind in ("topology", "interior_cut_edges"):
+    for kind in ("topology", "interior_cut_edges", "result"):
         if len(rep.outcomes.get(kind, ())) < 2:
             fails.append(f"observation {kind} took a single value over the whole run")
+    for k, want in PINNED.items():
+        got = len(F.surf6_classes()) if k == "surf6c" else len(F.surf_enum(int(k[4:])))
+        if got != want:
+            fails.append(f"family {k}: {got} members, pinned {want}")
     if rep.counters.get("premise_failed"):
         fails.append("mesh.edges differs from the sides of the faces on some input")
     if rep.counters.get("filtered_not_connected_manifold"):
